@@ -41,7 +41,7 @@ def run(chk):
     if len(seen_n) != 4096:
         raise ToolError("not all 4096 message numbers were presented (%d)" % len(seen_n))
     if not typed:
-        raise ToolError("vacuity: no typed variant observed at all")
+        chk.vacuity("vacuity: no typed variant observed at all")
     # informational: supported numbers whose generated frames never decoded to the typed variant in this run
     never_typed = sorted(set(feats) - typed)
     chk.cov["distinct_nontrivial"] = sum(1 for ln, o in r["lines"] if o["ev"] == "Decode")
